@@ -312,8 +312,10 @@ func baseRawGet(L *LState) int {
 }
 
 func baseRawSet(L *LState) int {
-	L.RawSet(L.CheckTable(1), L.CheckAny(2), L.CheckAny(3))
-	return 0
+	tb := L.CheckTable(1)
+	L.RawSet(tb, L.CheckAny(2), L.CheckAny(3))
+	L.Push(tb) // "This function returns table." (Lua 5.1 manual)
+	return 1
 }
 
 func baseSelect(L *LState) int {
